@@ -13,7 +13,7 @@ PYX = {}
 RULE = ("label images of 1-20 objects drawn from: single pixel, two pixels, collinear runs (horizontal, vertical, "
         "diagonal, slope 1/s), squares and rectangles (co-circular corners), right and random lattice triangles, thin "
         "diagonals, discs/ellipses, sparse point sets, smooth blobs, per-pixel random labels (interleaved objects); "
-        "index lists permuted, with omitted and absent labels; hull rows passed as produced by convex_hull, with each "
+        "a fifth of the images shifted by up to 60 rows/columns; index lists permuted, with omitted and absent labels; hull rows passed as produced by convex_hull, with each "
         "object's vertex cycle reversed, or rotated; one case = one vectorised call of each of the three functions; "
         "non-trivial = some object has >= 3 hull vertices; distinct by hash of the case")
 TRUSTED = [
@@ -161,6 +161,10 @@ def _case(ctx, rng, max_objs=20):
             lab[oi:oi + m.shape[0], oj:oj + m.shape[1]][m] = pool[q]
         labels_used = [int(x) for x in pool]
         top = int(max(pool))
+    if rng.rand() < 0.2:
+        # objects away from the origin (larger coordinates in the float formulas)
+        lab = np.pad(lab, ((int(rng.randint(0, 61)), 0), (int(rng.randint(0, 61)), 0)))
+        classes.append("offset")
     idx = list(labels_used)
     rng.shuffle(idx)
     if len(idx) > 1 and rng.rand() < 0.2:
@@ -207,7 +211,7 @@ def generate(ctx):
                 with open(os.path.join(cdir, name)) as f:
                     d = json.load(f)
                 cases.extend(d if isinstance(d, list) else [d])
-    for _ in range(ctx.n(500, 10000)):
+    for _ in range(ctx.n(2000, 30000)):
         cases.append(_case(ctx, ctx.rng))
     return cases
 
@@ -655,8 +659,24 @@ def shrink_candidates(case):
 
 
 MANIFEST = {
-    "level_text": "",
-    "level_note": "",
-    "technique": "Coq proof of certificate/brute-force checkers + exact-arithmetic executable models + differential correspondence",
+    "level_text": (
+        "Machine-checked proofs (Coq 8.16, closed under the global context) of the soundness of exact checkers that are "
+        "extracted and run on the implementation's own output for every object of every generated call: mec_ok (a circle "
+        "through two diametral pixels or three pixels of a non-obtuse triangle, containing all pixels, IS the minimum "
+        "enclosing circle, and it is unique), max_d2 (largest pairwise squared distance), feret_min_ok + feret_lower_ok (the "
+        "reported minimum width is the width of an enclosing strip and no enclosing strip in any rational direction is "
+        "narrower - cone certificates), fill_ok (rows are exactly the lattice points inside or on each polygon, each once, "
+        "right label). Executable exact-arithmetic Gallina models of the three functions as written (Chrystal iteration, "
+        "antipodal sweep with the min construction, scan-line fill) are compared with the implementation on complete "
+        "outputs (fill: exact; circle 1e-7, Feret 1e-9 against exact rationals) and cross-checked extraction vs vm_compute; "
+        "about the Chrystal model it is proved for all inputs that its result is never larger than any enclosing circle."),
+    "level_note": (
+        "Not proved: that Chrystal's iteration always ends in an enclosing circle (checked per run by mec_ok on the output), "
+        "that the antipodal sweep equals brute force, and that the scan-line model equals the specified set (edge- and "
+        "run-level exactness lemmas are proved; per run the implementation's output passes the verified fill_ok). Float "
+        "decisions (arccos, division, sqrt) are modelled by exact predicates. The certificates are proposed by unverified "
+        "Python and accepted only by the verified checkers. Trusted: Coq kernel + vm_compute, extraction (ExtrOcamlBasic), "
+        "the S-expression driver, the Python harness, convex_hull (C02) as supplier of the hull rows."),
+    "technique": "Coq-verified certificate checkers on implementation output + exact executable models + differential correspondence",
     "design_ref": "DESIGN.md section 7, C14",
 }
